@@ -414,8 +414,15 @@ def check_allocations(ctx, fns, rule, allocators=ALLOCATORS, extra_alloc=(), sum
                     return True
                 return False
             path = find_path_avoiding(fn.cfg, is_test, is_deref, None, (b, idx + 1))
+            if path is not None:
+                # is the witness feasible? (`n > 0` false, then `i < n` true with i == 0, is not)
+                from .flow import find_feasible_path_avoiding
+                path, capped = find_feasible_path_avoiding(fn, is_test, is_deref, (b, idx + 1))
+                if capped:
+                    ctx.inconclusive(rule, key, where, what, "path search cap reached")
+                    continue
             if path is None:
-                ctx.ok(rule, key, where, what, "`%s` tested (or not dereferenced) on every path" % L)
+                ctx.ok(rule, key, where, what, "`%s` tested (or not dereferenced) on every feasible path" % L)
             else:
                 ctx.bad(rule, key, where,
                         "`%s` = %s(...) is used (%s at line %d) on a path with no NULL test"
